@@ -30,6 +30,16 @@ Theorem C05_suffix_table :
 Proof. exact suffix_table_ok. Qed.
 Print Assumptions C05_suffix_table.
 
+(* dumps_json/loads_json and dumps_yaml/loads_yaml use the codecs the theorem ranges over (regenerated API table) *)
+Theorem C05_api_table :
+  transport_of_api "dict" = Some TrDict /\ transport_of_api "json" = Some TrJson /\ transport_of_api "yaml" = Some TrYaml.
+Proof. exact api_table_ok. Qed.
+Print Assumptions C05_api_table.
+(* Optional[dataclass] / nested dataclass given None *)
+Theorem C05_from_dict_none : forall decf k c fs, decode_gen decf (TDc k c fs) PNone = Ok VNone.
+Proof. exact from_dict_none. Qed.
+Print Assumptions C05_from_dict_none.
+
 (* the statement without union_safe is false of the faithful model: first-success order is lossy *)
 Theorem C05_roundtrip_refuted :
   ~ (forall t v, ser_type DC_TYPE_KEY t = true /\ has_type v t = true /\ plain_value v = true ->
